@@ -377,3 +377,5 @@ def run(ctx):
     finally:
         # numeric kernels this property's formulas rest on, pinned as canonical expression trees
         check_kernels(ctx, "C20.K", ['adjust_i64', 'adjust_u64', 'adjust_i128', 'collateral_to_liquidity', 'liquidity_to_collateral', 'drift-withdraw-token-amount', 'drift-adjust-oracle'])
+        from .kernels import check_leaves
+        check_leaves(ctx, "C20.K", ['drift.scale_deposit_limit'])
